@@ -806,6 +806,32 @@ theorem verify_one_sig_ok_iff (cv : VKey → VSig → List VRec → Verdict) (in
       ∃ k ∈ keys, usableSignatureCandidate tagOf sig k = true ∧ cv k sig set = Verdict.ok :=
   verifyOneSig_iff cv inPeriod supAlg tagOf keys set sig
 
+/-- **A denial record is never accepted as a wildcard expansion.** A signature
+covering NSEC or NSEC3 that `signatureMatchesRRset` lets through counts at
+least as many labels as the owner has (a leading `*` label not counted), so by
+`verify_one_sig_ok_iff` / `verify_rrsig_ok_iff` no wildcard-expanded NSEC or
+NSEC3 is ever authenticated (RFC 4035 §2.3, RFC 4592 §4.6). -/
+theorem matched_denial_not_wildcard_expanded (sig : VSig) (r0 : VRec) (t : List VRec)
+    (ht : sig.typ = 47 ∨ sig.typ = 50) (h : signatureMatchesRRset sig (r0 :: t) = true) :
+    wildcardExpanded r0.name sig.labels = false := by
+  unfold signatureMatchesRRset at h
+  simp only [Bool.and_eq_true, Bool.not_eq_true', Bool.and_eq_false_imp, Bool.or_eq_true, beq_iff_eq] at h
+  exact h.1.1.1.1.1.1 ht
+
+theorem verified_denial_not_wildcard_expanded (cv : VKey → VSig → List VRec → Verdict) (inPeriod : VSig → Bool)
+    (supAlg : Nat → Bool) (tagOf : VKey → Nat) (keys : List VKey) (r0 : VRec) (t : List VRec) (sig : VSig)
+    (ht : sig.typ = 47 ∨ sig.typ = 50) (h : verifyOneSig cv inPeriod supAlg tagOf keys (r0 :: t) sig = true) :
+    wildcardExpanded r0.name sig.labels = false :=
+  matched_denial_not_wildcard_expanded sig r0 t ht ((verifyOneSig_iff _ _ _ _ _ _ _).mp h).2.2.1
+
+-- "a.b." NSEC signed with Labels = 1 (the record of "*.b." renamed) does not match; "*.b." itself does
+example : signatureMatchesRRset ⟨47, 15, 1, 60, 2, 1, 9, 1, [98, 46], [97, 46, 98, 46], []⟩
+    [⟨[97, 46, 98, 46], 47, 1, [[97], [98]], [0], []⟩] = false := by decide
+example : signatureMatchesRRset ⟨47, 15, 1, 60, 2, 1, 9, 1, [98, 46], [42, 46, 98, 46], []⟩
+    [⟨[42, 46, 98, 46], 47, 1, [[42], [98]], [0], []⟩] = true := by decide
+example : signatureMatchesRRset ⟨1, 15, 1, 60, 2, 1, 9, 1, [98, 46], [97, 46, 98, 46], []⟩
+    [⟨[97, 46, 98, 46], 1, 1, [[97], [98]], [0], []⟩] = true := by decide
+
 /-- **`VerifyRRSIG` succeeds exactly** when keys were offered, no answer
 record that is not a synthesised CNAME lies outside the signer zone, and every
 RRset that has to be signed (answer records; authority records other than NS
